@@ -48,7 +48,7 @@ def bounds(tier):
     return {"tier": tier, "name_sets": sum(1 for k in range(0, 6) for _ in itertools.combinations(NAMES, k)),
             "constructors": ["obj"] + sorted(OBJ_CLASSES) + ["array(dict)", "array(dtype)", "zip", "Array"] + ["the 20 from_<names> class methods on the 6 object classes"],
             "value_kinds": "int, float, numpy.float64, numpy.int32, numpy.float32 accepted verbatim; bool, None, str, complex, list, numpy.bool_ rejected (one position at a time, every accepted set)",
-            "unknown_names": ["w", "pE"],
+            "unknown_names": ["w", "pE"], "column_containers": "every accepted set through vector.array(dict) and vector.zip with the columns in mixed containers (int64/int32/float32/float64 arrays, lists, tuples), all 6 rotations",
             "keyword_orders": "keyword constructors: every permutation of every name set (5-name sets in quick: canonical, reversed, 4 rotations); array constructors: canonical and reversed field order"}
 
 
@@ -260,6 +260,50 @@ def _Array(names, values):
     return vector.Array([{n: values[n] for n in names}])
 
 
+CONTAINERS = {
+    "ndarray[i8]": lambda vals: (np.array([int(v) for v in vals], dtype=np.int64), [float(int(v)) for v in vals]),
+    "list": lambda vals: ([float(v) for v in vals], [float(v) for v in vals]),
+    "ndarray[f8]": lambda vals: (np.array(vals, dtype=np.float64), [float(v) for v in vals]),
+    "tuple": lambda vals: (tuple(float(v) for v in vals), [float(v) for v in vals]),
+    "ndarray[f4]": lambda vals: (np.array(vals, dtype=np.float32), [float(np.float32(v)) for v in vals]),
+    "ndarray[i4]": lambda vals: (np.array([int(v) for v in vals], dtype=np.int32), [float(int(v)) for v in vals]),
+}
+
+
+def check_mixed_containers(res: Result, names, want, case):
+    """A documented name set whose columns come in *different containers* (integer / float32 / float64 arrays, lists, tuples,
+    in every rotation over the names): every column is stored with its own values unchanged."""
+    dim, system, flavor, origin = want
+    kinds = list(CONTAINERS)
+    rowvals = {n: [TAG[n], -TAG[n] - 0.375, TAG[n] + 0.1] for n in names}  # fractional values an integer dtype cannot hold
+    for rot in range(len(kinds)):
+        assign = {n: kinds[(i + rot) % len(kinds)] for i, n in enumerate(names)}
+        cols, expect = {}, {}
+        for n in names:
+            cols[n], expect[n] = CONTAINERS[assign[n]](rowvals[n])
+        for cname, build in (("array(dict)", lambda: vector.array(dict(cols))), ("zip", lambda: vector.zip({n: (ak.Array(c) if not isinstance(c, tuple) else ak.Array(list(c))) for n, c in cols.items()}))):
+            res.states += 1
+            res.transitions += 1
+            res.traces += 1
+            res.evaluations += 1
+            c2 = dict(case, ctor=cname, containers=assign)
+            key = f"mixed_containers|{cname}|" + "+".join(sorted(set(assign.values())))
+            try:
+                d = describe_arraylike(build())
+            except Exception as e:  # noqa: BLE001
+                res.violation(key + "|raises", f"{cname} with columns {assign} raised {type(e).__name__}: {str(e)[:150]}", c2)
+                continue
+            if d is None or d[0] == "incomplete" or (d[0], d[1], d[2]) != (dim, system, flavor):
+                res.violation(key + "|type", f"{cname} with columns {assign} built {d and d[:3]}, expected {(dim, system, flavor)}", c2)
+                continue
+            bad = [f for f in L.field_names(system) if [float(x) for x in d[3].get(f, [])] != expect[origin[f]]]
+            if bad:
+                f = bad[0]
+                res.violation(key, f"{cname} with columns {assign}: coordinate {f} holds {d[3].get(f)}, supplied {expect[origin[f]]} (as {assign[origin[f]]})", c2)
+            else:
+                res.nontrivial += 1
+
+
 ARRAY_CTORS = {"array(dict)": _array_dict, "array(dtype)": _array_dtype, "zip": _zip, "Array": _Array}
 
 GOOD_KINDS = {"int": lambda x: int(x), "numpy.float64": lambda x: np.float64(x), "numpy.int32": lambda x: np.int32(int(x)), "numpy.float32": lambda x: np.float32(x)}
@@ -306,6 +350,8 @@ def check_set(res: Result, names, tier, only=None):
             check_objlike(res, cname, cls, perm, values, w, dict(case, ctor=cname, names=list(perm)))
     if want is None:
         return
+    if only in (None, "array(dict)", "zip"):
+        check_mixed_containers(res, names, want, case)
     dim, system, flavor, origin = want
     cls_name = ("Momentum" if flavor == "momentum" else "Vector") + f"Object{dim}D"
     ctors = {"obj": vector.obj, cls_name: OBJ_CLASSES[cls_name][0]}
